@@ -126,6 +126,8 @@ func (o *muxObs) withQuery(u string) string {
 }
 
 // observe is called at rest after every writer step.
+var bandwidthRe = regexp.MustCompile(`(AVERAGE-)?BANDWIDTH=\d+,?`)
+
 func (o *muxObs) observe() {
 	w := o.w
 	if !o.contentSeen {
@@ -157,7 +159,9 @@ func (o *muxObs) observe() {
 	// state as a request issued now
 	if o.indexReq != nil && !o.firstIndexCompared {
 		o.firstIndexCompared = true
-		if o.query == "" && !bytes.Equal(o.indexReq.body, idx.body) {
+		// (a Write call may rotate more than once; the waiting request is answered after the first of these rotations or
+		// after a later one, so the bandwidth figures, which every rotation updates, are left out of the comparison)
+		if o.query == "" && !bytes.Equal(bandwidthRe.ReplaceAll(o.indexReq.body, nil), bandwidthRe.ReplaceAll(idx.body, nil)) {
 			o.problem("index", "blocked-request-stale", "the multivariant request that waited for the first content was answered with\n%s\nwhile a request issued at the same moment gets\n%s", o.indexReq.body, idx.body)
 			return
 		}
